@@ -270,6 +270,37 @@ def run(ck):
                             ck.check(okz, "C07.R4", inst + ":z_samples = all-Z rows of the data", fsite, why)
                             ib = argp(env, 5)
                             ck.check(isinstance(ib, VTens) and ib.term == T.sym("input_bases"), "C07.R1", inst + ":bases forwarded", fsite, "the bases handed to the shuffler are not the caller's input_bases")
+    # ------------------------------------------------------------------ R4 (second run): the pool is taken from this run's data
+    # "every epoch uses every sample ... the negative chains start from this data set's all-Z rows": a fit on other data of the
+    # same shape, on the same object, hands the shuffler rows extracted from the data and bases given to *this* call
+    for cls in ("ComplexWaveFunction", "DensityMatrix"):
+        inst = "fit/%s/after a fit on other data of the same shape" % cls
+        with ck.guard("C07.R4", inst, fsite):
+            def th2(it, cls=cls):
+                s = make_state(it, cls)
+                kw = {"pos_batch_size": api.intsym("pb"), "epochs": VConst(1)}
+                call(it, s, "fit", tens(it, "data0", ("N", "nv")), input_bases=api.bases_arr(it, "bases0", "N"), **kw)
+                n0 = len(it.calls)
+                call(it, s, "fit", tens(it, "data", ("N", "nv")), input_bases=api.bases_arr(it, "input_bases", "N"), **kw)
+                return n0
+
+            paths = paths_of(prog, th2, max_paths=120, sticky=True, stubs={"NeuralStateBase.compute_batch_gradients": stub_grad_lists})
+            rets = [p for p in paths if p.outcome == "return"]
+            ck.check(bool(rets), "C07.R4", inst + ":runs", fsite, "two successive fits never return")
+            for p in rets[:6]:
+                sc = [r for r in p.calls[p.value:] if r[0] == "NeuralStateBase._shuffle_data"]
+                if not sc:
+                    ck.undecided("C07.R4", inst + " [%s]" % _c(p), fsite, "the second fit does not call the shuffler")
+                    continue
+                za = argp(sc[0][5], 6)
+                zt = za.term if isinstance(za, VTens) else None
+                if zt is None:
+                    ck.undecided("C07.R4", inst + " [%s]" % _c(p), fsite, "the pool handed to the shuffler is not followed")
+                    continue
+                old_ = sorted(n_ for n_ in zt.syms() if n_ in ("data0", "bases0") or n_.startswith("arr:bases0"))
+                ck.check(not old_ and "data" in zt.syms(), "C07.R4", inst + ":pool extracted from this call's data [%s]" % _c(p), fsite,
+                         "in a second fit on other data of the same shape the negative chains start from rows of %s: a pool kept from the earlier run is reused" % (", ".join(old_) or "neither data set"),
+                         key="C07.R4|fit|pool from an earlier run")
     ck.require_min("C07.R1", 6)
     ck.require_min("C07.R2", 7)
     ck.require_min("C07.R3", 6)
